@@ -43,6 +43,15 @@ static std::vector<Pat> patterns(int d, bool thorough, long seed) {
   int maxconst = d <= 5 ? 5 : (d <= 7 ? (thorough ? 5 : 3) : (d == 8 ? (thorough ? 4 : 2) : (thorough ? 3 : 2)));
   for (int k = 0; k <= maxconst; k++) ps.push_back({vf::fmt("all%d", k), std::vector<uint32_t>(d, k)});
   if (d == 6) { ps.push_back({"known-222322", {2, 2, 2, 3, 2, 2}}); ps.push_back({"known-222522", {2, 2, 2, 5, 2, 2}}); ps.push_back({"near-known-222422", {2, 2, 2, 4, 2, 2}}); ps.push_back({"near-known-223222", {2, 2, 3, 2, 2, 2}}); }
+  // every shortcut get_evaluator can take deserves near misses: the known mixed patterns as a proper prefix or suffix of a longer
+  // order vector, and truncated to fewer dimensions
+  static const uint32_t K3[6] = {2, 2, 2, 3, 2, 2}, K5[6] = {2, 2, 2, 5, 2, 2};
+  if (d > 6) {
+    { std::vector<uint32_t> o(K3, K3 + 6); while ((int)o.size() < d) o.push_back(2); ps.push_back({"known-222322-as-prefix", o}); }
+    { std::vector<uint32_t> o(K5, K5 + 6); while ((int)o.size() < d) o.push_back(1 + o.size() % 2); ps.push_back({"known-222522-as-prefix", o}); }
+    { std::vector<uint32_t> o; while ((int)o.size() < d - 6) o.push_back(2); o.insert(o.end(), K3, K3 + 6); ps.push_back({"known-222322-as-suffix", o}); }
+  }
+  if (d == 4 || d == 5) { ps.push_back({"known-222322-truncated", std::vector<uint32_t>(K3, K3 + d)}); ps.push_back({"known-222522-truncated", std::vector<uint32_t>(K5, K5 + d)}); }
   if (d > 1) {
     { std::vector<uint32_t> o(d, 2); o[d - 1] = 3; ps.push_back({"all2-last3", o}); }
     { std::vector<uint32_t> o(d, 3); o[0] = 2; ps.push_back({"all3-first2", o}); }
@@ -153,7 +162,7 @@ int main(int argc, char** argv) {
   H = &h;
   h.meta("level", "exploration");
   h.meta("extra_binaries", "C03nt,C03asan,C03asannt");
-  h.meta("rule", "four builds of one harness ({library PUBLIC flags -O3 -msse..-mno-avx, ASan -O1} x {with, without PHOTOSPLINE_NO_EVAL_TEMPLATES}); in each: d=1..9 x order patterns {all k, the two known mixed patterns and two near misses, all2-last3, all3-first2, three seeded mixed} x 2 knot counts x (5 all-axes structural points + 4 one-axis-special points per axis + 16 seeded points) x {float,double}; memcmp of centres, value, every single-bit and the all-bits derivative, evaluator call operator, table call operator, C wrapper, every gradient lane (member vs evaluator vs C), gradient value lane vs plain value, ndsplineeval_deriv (member vs evaluator<float> vs C); the selected core is identified by comparing eval_ptr with the member-template addresses; distinct = (build, table key, precision, selected core, point class)");
+  h.meta("rule", "four builds of one harness ({library PUBLIC flags -O3 -msse..-mno-avx, ASan -O1} x {with, without PHOTOSPLINE_NO_EVAL_TEMPLATES}); in each: d=1..9 x order patterns {all k, the two known mixed patterns, near misses, and the known patterns as prefix / suffix of longer and truncated to shorter order vectors, all2-last3, all3-first2, three seeded mixed} x 2 knot counts x (5 all-axes structural points + 4 one-axis-special points per axis + 16 seeded points) x {float,double}; memcmp of centres, value, every single-bit and the all-bits derivative, evaluator call operator, table call operator, C wrapper, every gradient lane (member vs evaluator vs C), gradient value lane vs plain value, ndsplineeval_deriv (member vs evaluator<float> vs C); the selected core is identified by comparing eval_ptr with the member-template addresses; distinct = (build, table key, precision, selected core, point class)");
   h.meta("assumption", "bit identity is asserted under the compilers/flags used here (g++ 12, the library's own PUBLIC options, and -O1+ASan); other compilers or -ffast-math are outside");
   h.meta("deadline_quick", "900");
   h.meta("deadline_thorough", "2400");
